@@ -118,7 +118,7 @@ def impl_loc_op(line):
         if op == "ghasov":
             a = parse_loc(tk)
             b = parse_loc(tk)
-            return "ok " + b2s(a.has_overlap(b))
+            return "ok " + b2s(a.has_overlap(b, match_strand=tk.bool()))
         if op == "ggaplist":
             # gap_list(); the model driver answers with the GENERATED pairwise loop (Gen.CompoundInterval_gap_list)
             gs = parse_loc(tk).gap_list()
